@@ -75,6 +75,7 @@ def main():
         mod.correspond(ctx)
     except Exception as ex:
         broken.append(("correspondence-harness", traceback.format_exc()[-3000:]))
+    n_mis_after_corr = len(ctx.mismatches)
     if ctx.mismatches:
         broken.append(("correspondence", ctx.mismatches[:5]))
 
@@ -84,6 +85,10 @@ def main():
         mod.search(ctx)
     except Exception as ex:
         broken.append(("search-harness", traceback.format_exc()[-3000:]))
+
+    if len(ctx.mismatches) > n_mis_after_corr:
+        # model/spec cross-checks recorded during the search phase
+        broken.append(("correspondence(search-phase)", ctx.mismatches[n_mis_after_corr:n_mis_after_corr + 5]))
 
     for m in ctx.models.values():
         m.close()
